@@ -378,6 +378,8 @@ class HistoryGen:
                 # reconnect and re-add
                 if rng.random() < 0.8:
                     self.emit(['linkdown'])
+                    if self.acks and rng.random() < 0.5:
+                        self.deliver(rng.choice([1, 2, None]))      # acks of the old session, after the disconnect
                 self.stats['reconnects'] += 1
                 self.session(same_toc=rng.random() < 0.8)
                 for h in handles:
@@ -731,10 +733,12 @@ def _check_block(case):
     gens2 = case.get('v2', [True, True])      # protocol generation of the first / the reconnect session
     cur_v2 = [gens2[0]]
 
-    def open_session(table=None, v2=None):
+    def open_session(table=None, v2=None, between=()):
         if v2 is not None:
             cur_v2[0] = v2
         ev(['refresh', cur_v2[0]])
+        for pkt in between:                     # acknowledgements of the OLD session, before the reset reply
+            im.apply(['pkt', 1, pkt])
         ev(['pkt', 1, [5, 0, 0]])
         ev(['settoc', table if table is not None else case['toc']])
     open_session()
@@ -947,8 +951,16 @@ def _check_block(case):
     toc2 = {}
     for nm, ident, ty in toc2_list:
         toc2[nm] = (ident, ty)
+    old_create = 6 if cur_v2[0] else 0
+
+    def late(lst):
+        return [[old_create if a[0] == 'create' else a[0], cfg.id, a[1]] for a in lst]
     ev(['linkdown'])
-    open_session(toc2_list, gens2[1])
+    # acknowledgements of the old session that were still in the receive queue are dispatched after the
+    # disconnected callbacks (and some only after the next session has sent its reset request)
+    for pkt in late(case.get('late', [])):
+        im.apply(['pkt', 1, pkt])
+    open_session(toc2_list, gens2[1], between=late(case.get('late2', [])))
     if cfg.added or cfg.started:
         raise _Fail('stale_added_flag_after_reconnect_start_skips_create', [False, False],
                     [cfg.added, cfg.started], 'the device was reset by the new session, the block does not exist any more')
@@ -1118,6 +1130,10 @@ def _gen_block_case(rng, force=None):
                 for e, i in zip(t2, ids):
                     e[1] = i
             case['toc2'] = t2
+    if case['reconnect'] and rng.random() < 0.45:
+        acks = [['create', 0], ['create', 0], [3, 0], [3, 0], [4, 0], [2, 0], ['create', 17], [3, 2], ['create', 12]]
+        case['late'] = [rng.choice(acks) for _ in range(rng.randrange(0, 3))]
+        case['late2'] = [rng.choice(acks) for _ in range(rng.randrange(0, 3))]
     # the protocol generation may change between the sessions (firmware < 4: legacy messages, 8-bit indices)
     ntab = len([v for v in vs if v[0] != 'm'])
     r = rng.random()
@@ -1461,7 +1477,7 @@ def _shrink(case, cls, budget=400):
             continue
         cands = []
         for key, val in (('reconnect', False), ('delete', False), ('restart', None), ('toc2', None), ('refuse', None),
-                         ('v2', None),
+                         ('v2', None), ('late', []), ('late2', []),
                          ('samples', []),
                          ('ms', 100)):
             if cur.get(key) not in (val, None) or (key == 'ms' and cur.get('ms') != 100):
@@ -1581,7 +1597,8 @@ PROVED = ('Over the model: add_config accepts iff names in TOC, 1<=int(ms/10)<=2
           'of connect() is refuted; value contract of a sent packet (fresh packet per create/append message: transmitted = '
           'commanded for every lag and resend schedule; shared packet object refuted); start() of a not added block '
           'always creates (a refusal does not wedge it; the pending-guarded variant is refuted); every accepted add binds '
-          'the configuration to the protocol generation of the current session (bind-once refuted).')
+          'the configuration to the protocol generation of the current session (bind-once refuted); the reset reply of a '
+          'new session forgets added/started/pending whatever old acknowledgements arrived late (forget-at-disconnect refuted).')
 NOT_PROVED = ('Refuted on the unchanged code and kept as a known finding: raw-memory variables (add_memory) make create() '
               'raise TypeError (F05a; why it is not repaired: findings/C05.json why_not_fixed).  Not covered: protocol V1 has '
               'its theorem but no room test exists in the code (more than 14 variables exceed 30 bytes); append '
